@@ -86,6 +86,7 @@ def read_clip(fn):
                        f'lo := .unknown, hi := .unknown, extraStmts := 1 }} /- {why} -/')
     if fn is None:
         return bad('method missing')
+    fn = inline.propagate_locals(fn)
     stmts = body_of(fn)
     extra = 0
     per_agent = False
